@@ -262,13 +262,16 @@ SigRefs(c) == CASE c = "sc" -> {[k |-> "sc", n |-> x] : x \in SigScalars} \cup {
 
 SigAdd ==
   /\ Mode = "sig" /\ pick # ""
-  /\ \E p \in SigRefs(pick) :
-       IF phase = "build" THEN ms' = Append(ms, p) /\ outs' = outs
-       ELSE p.k # "arr" /\ outs' = Append(outs, p) /\ ms' = ms
+  /\ \E p \in SigRefs(pick), nm \in BOOLEAN :      \* nm: the parameter of the DEFINITION is named (C23 allows unnamed ones)
+       IF phase = "build" THEN ms' = Append(ms, [nm |-> nm] @@ p) /\ outs' = outs
+       ELSE nm /\ p.k # "arr" /\ outs' = Append(outs, p) /\ ms' = ms
   /\ pick' = ""
   /\ UNCHANGED <<st, pool, phase, want>>
 
-SigCase == [k |-> "sig", ret |-> st.ret, va |-> st.va, ps |-> ms, xs |-> outs,
+(* The classes come from the parameter TYPES; whether a parameter is named is irrelevant (PClass ignores nm). *)
+(* fresh: "" | "u" | "r" - the harness must make this signature the FIRST by-value use of the aggregate's type  *)
+(* in the translation unit (unnamed parameter / return type only), see "ident".                                 *)
+SigCase == [k |-> "sig", ret |-> st.ret, va |-> st.va, ps |-> ms, xs |-> outs, fresh |-> st.fresh,
             rcls |-> IF st.ret.k = "void" THEN <<>> ELSE PClass(st.ret),
             pcls |-> [i \in 1..Len(ms) |-> PClass(ms[i])],
             xcls |-> [i \in 1..Len(outs) |-> VClass(outs[i])],
@@ -307,7 +310,9 @@ JudgeOne ==
   /\ phase' = "done"
   /\ UNCHANGED <<st, ms, outs, pool, want, pick>>
 
-(* "ident": one signature `A f(A)` per input aggregate, so that every aggregate is described at least once *)
+(* "ident": per input aggregate A the signatures `A f(A a)`, `void f(A)` (unnamed, first use of the type) and *)
+(* `A f(void)` (the return type is the only use), so that every aggregate is described at least once and   *)
+(* through each of the three places qbe.c:mkfunc / emitfunc take a type description from                    *)
 IdentOne ==
   /\ Mode = "ident" /\ phase = "idle"
   /\ PrintT("VCASE " \o ToJson(SigCase))
@@ -317,14 +322,14 @@ IdentOne ==
 AInit ==
   IF Mode = "ident"
   THEN /\ outs = <<>> /\ pick = "" /\ phase = "idle" /\ want = 0 /\ pool = <<>>
-       /\ LET n == Len(AInput) IN \E i \in 1..n :
-            /\ st = [ret |-> [k |-> "agg", i |-> i], va |-> FALSE, nagg |-> n]
-            /\ ms = <<[k |-> "agg", i |-> i]>>
+       /\ LET n == Len(AInput) IN \E i \in 1..n, v \in {"", "u", "r"} :
+            /\ st = [ret |-> IF v = "u" THEN [k |-> "void"] ELSE [k |-> "agg", i |-> i], va |-> FALSE, nagg |-> n, fresh |-> v]
+            /\ ms = IF v = "r" THEN <<>> ELSE <<[k |-> "agg", i |-> i, nm |-> v # "u"]>>
   ELSE IF Mode \in {"judge", "sig"}
   THEN /\ ms = <<>> /\ outs = <<>> /\ pick = "" /\ phase = "idle" /\ want = 0
        /\ LET inp == AInput IN
           IF Mode = "judge" THEN \E i \in 1..Len(inp) : pool = <<inp[i]>> /\ st = Acc0(FALSE, FALSE)
-          ELSE pool = <<>> /\ st = [ret |-> [k |-> "void"], va |-> FALSE, nagg |-> Len(inp)]
+          ELSE pool = <<>> /\ st = [ret |-> [k |-> "void"], va |-> FALSE, nagg |-> Len(inp), fresh |-> ""]
   ELSE Init
 
 ANext == IF Mode = "judge" THEN JudgeOne
